@@ -226,7 +226,7 @@ Proof. vm_compute. repeat split; reflexivity. Qed.
 
 (* ====================================================================================================
    Appended by work package pb1: the termination half for struct-mapped objects
-   (Proofs/XMono.v, Proofs/XTerm.v, Proofs/XTermRec.v).  This supersedes the remark above that the full
+   (Proofs/XMonoT.v, Proofs/XTerm.v, Proofs/XTermRec.v).  This supersedes the remark above that the full
    statement `x_struct_total` is not proved.
 
    C04_struct_terminates / C04_struct_total   THE FULL STATEMENT, recursive schemas included:
@@ -259,7 +259,7 @@ Proof. vm_compute. repeat split; reflexivity. Qed.
                                   names, every declared default decodes to a value of depth <= K), where no run of
                                   the model is part of the hypothesis; fuel bound
                                     xfuel_bound_nr K e s v = 4 * N + max (vdepth v) (K + N) + 3. *)
-From Verif Require Import Schema.Total Proofs.XMono Proofs.XTerm.
+From Verif Require Import Schema.Total Proofs.XMonoT Proofs.XTerm.
 
 Theorem C04_struct_fuel_monotone :
   forall (words : list (string * bool)) (pu : units -> string -> option fl)
